@@ -132,6 +132,10 @@ fiber_t* fiber_create_from_thread() {
 
 #include <stdio.h>
 
+// left in the scratch field of a fiber blocked in fiber_join() when the fiber
+// it is joining gets detached
+#define FIBER_JOIN_WOKEN_BY_DETACH ((void*)(intptr_t)-2)
+
 int fiber_join(fiber_t* f, void** result) {
   assert(f);
   if (result) {
@@ -147,7 +151,14 @@ int fiber_join(fiber_t* f, void** result) {
     // need to wait till the fiber finishes
     fiber_manager_t* const manager = fiber_manager_get();
     fiber_t* const current_fiber = manager->current_fiber;
+    current_fiber->scratch = NULL;
     fiber_manager_set_and_wait(manager, (void**)&f->join_info, current_fiber);
+    if (current_fiber->scratch == FIBER_JOIN_WOKEN_BY_DETACH) {
+      // f was detached while we were waiting: it has not necessarily finished
+      // and there is no result. f must not be touched any more.
+      current_fiber->scratch = NULL;
+      return FIBER_ERROR;
+    }
     if (result) {
       *result = current_fiber->result;
     }
@@ -219,6 +230,10 @@ int fiber_detach(fiber_t* f) {
     // convenience, pthreads specifies undefined behaviour in that case)
     fiber_t* const to_schedule = fiber_manager_clear_or_wait(
         fiber_manager_get(), (_Atomic(void*)*)&f->join_info);
+    if (old_state == FIBER_DETACH_WAIT_TO_JOIN) {
+      // to_schedule is a fiber blocked in fiber_join(f): its join fails
+      to_schedule->scratch = FIBER_JOIN_WOKEN_BY_DETACH;
+    }
     to_schedule->state = FIBER_STATE_READY;
     fiber_manager_schedule(fiber_manager_get(), to_schedule);
   } else if (old_state == FIBER_DETACH_DETACHED) {
